@@ -28,4 +28,40 @@ def findGo (sub : Bytes) : Bytes → Int → Int
 def find (b sub : Bytes) (start : Int) : Int :=
   if start > b.length then -1 else findGo sub (b.drop (normIdx b.length start)) (normIdx b.length start)
 
+/-! ### `bytes.decode('utf-8')` (strict): does it succeed?
+
+  Well-formed UTF-8 as CPython's decoder accepts it (Unicode Table 3-7): no overlong forms, no
+  surrogates (ED A0..BF), nothing above U+10FFFF, no truncated sequence. -/
+
+def isCont (b : UInt8) : Bool := 0x80 ≤ b && b ≤ 0xBF
+
+/-- `true` iff `b.decode('utf-8')` returns; `false` iff it raises UnicodeDecodeError -/
+def utf8Valid : Bytes → Bool
+  | [] => true
+  | b0 :: rest =>
+    if b0 < 0x80 then utf8Valid rest
+    else if 0xC2 ≤ b0 && b0 ≤ 0xDF then
+      match rest with
+      | b1 :: r => isCont b1 && utf8Valid r
+      | _ => false
+    else if 0xE0 ≤ b0 && b0 ≤ 0xEF then
+      match rest with
+      | b1 :: b2 :: r =>
+        isCont b1 && isCont b2 && (b0 != 0xE0 || 0xA0 ≤ b1) && (b0 != 0xED || b1 ≤ 0x9F) && utf8Valid r
+      | _ => false
+    else if 0xF0 ≤ b0 && b0 ≤ 0xF4 then
+      match rest with
+      | b1 :: b2 :: b3 :: r =>
+        isCont b1 && isCont b2 && isCont b3 && (b0 != 0xF0 || 0x90 ≤ b1) && (b0 != 0xF4 || b1 ≤ 0x8F) && utf8Valid r
+      | _ => false
+    else false
+
+/-- the exception classes whose `except` clause catches a UnicodeDecodeError
+    (UnicodeDecodeError < UnicodeError < ValueError < Exception < BaseException; a bare `except:` is
+    listed as BaseException by the extractor) -/
+def decodeErrorClasses : List String := ["UnicodeDecodeError", "UnicodeError", "ValueError", "Exception", "BaseException"]
+
+/-- do the handlers of the enclosing `try` statements catch a UnicodeDecodeError? -/
+def catchesDecodeError (handlers : List String) : Bool := handlers.any fun h => decodeErrorClasses.contains h
+
 end Sv.Py
